@@ -25,6 +25,17 @@ Inductive op :=
 | OpStrNew (k sec : N)                 (* string_section_accessor a( sections[sec] ), kept under handle k *)
 | OpStrGetK (k idx : N)                (* a.get_string( idx ) through that accessor *)
 | OpStrAddK (k : N) (s : bytes)        (* a.add_string( s ) through that accessor *)
+| OpSymNew (k sec : N)                 (* symbol_section_accessor a( elf, sections[sec] ), kept under handle k *)
+| OpSymGetK (k idx : N)                (* a.get_symbol( idx, ... ) through that accessor *)
+| OpSymNameK (k : N) (name : bytes)    (* a.get_symbol( name, ... ) *)
+| OpSymValK (k value : N)              (* a.get_symbol( value, ... ) *)
+| OpSymNumK (k : N)                    (* a.get_symbols_num() *)
+| OpRelNew (k sec : N)                 (* relocation_section_accessor a( elf, sections[sec] ), kept under handle k *)
+| OpRelAddK (k : N) (rela : bool) (offset symbol type addend : N)
+| OpRelGetK (k idx : N)
+| OpRelSetK (k idx offset symbol type addend : N)
+| OpRelSwapK (k a b : N)
+| OpRelNumK (k : N)
 | OpNoteAddSelf (k type : N) (name : bytes) (idx : N)   (* add_note( type, name, desc, descsz ) with desc, descsz as get_note( idx ) returned them *)
 (* symbols *)
 | OpSymAdd (symsec name value size info other shndx : N)
@@ -166,6 +177,8 @@ Inductive acc :=
 | AMod (a : mod_acc)
 | AVs (a : vs_acc)
 | AStr (sec : N)               (* a string_section_accessor kept alive across operations: it holds nothing but the section *)
+| ASym (sec : N)               (* a symbol_section_accessor kept alive across operations: it holds nothing but the section *)
+| ARel (sec : N)               (* a relocation_section_accessor kept alive across operations: it holds nothing but the section *)
 | AVer (sec : N) (num : N).
 
 Record world := mkWorld1 { w_el : elfio; w_accs : list (N * acc); w_allocs : list N;
@@ -559,6 +572,45 @@ Definition step1 (w : world) (o : op) : res (world * list obs) :=
            end])
   | OpSymNum symsec =>
       s <- need_sec el symsec ;; Ok (w, [ObN T_SYMNUM [symsec; get_symbols_num el s]])
+  | OpSymNew k sec => _ <- need_sec el sec ;; Ok (set_acc w el k (ASym sec), [])
+  | OpSymGetK k idx =>
+      match find_acc (w_accs w) k with
+      | Some (ASym symsec) =>
+          '(el1, r) <- get_symbol junk0 el symsec idx ;;
+          Ok (mkWorld el1,
+              [match r with
+               | Some v => ObB T_SYM [symsec; idx; 1; sv_value v; sv_size v; sv_bind v; sv_type v; sv_shndx v; sv_other v] (Some (sv_name v))
+               | None => ObB T_SYM [symsec; idx; 0] (Some [])
+               end])
+      | _ => Fault NullDeref
+      end
+  | OpSymNameK k name =>
+      match find_acc (w_accs w) k with
+      | Some (ASym symsec) =>
+          '(el1, r) <- get_symbol_by_name junk0 el symsec name ;;
+          Ok (mkWorld el1,
+              [match r with
+               | Some v => ObB T_SYMN [symsec; 1; sv_value v; sv_size v; sv_bind v; sv_type v; sv_shndx v; sv_other v] (Some name)
+               | None => ObB T_SYMN [symsec; 0] (Some name)
+               end])
+      | _ => Fault NullDeref
+      end
+  | OpSymValK k value =>
+      match find_acc (w_accs w) k with
+      | Some (ASym symsec) =>
+          '(el1, r) <- get_symbol_by_value junk0 el symsec value ;;
+          Ok (mkWorld el1,
+              [match r with
+               | Some v => ObB T_SYMV [symsec; 1; sv_size v; sv_bind v; sv_type v; sv_shndx v; sv_other v] (Some (sv_name v))
+               | None => ObB T_SYMV [symsec; 0] (Some [])
+               end])
+      | _ => Fault NullDeref
+      end
+  | OpSymNumK k =>
+      match find_acc (w_accs w) k with
+      | Some (ASym symsec) => s <- need_sec el symsec ;; Ok (w, [ObN T_SYMNUM [symsec; get_symbols_num el s]])
+      | _ => Fault NullDeref
+      end
   | OpArrange symsec relsec =>
       '(el1, ret, log) <- arrange_local_symbols junk0 el symsec ;;
       el2 <- (if relsec =? 65535 then Ok el1
@@ -592,6 +644,40 @@ Definition step1 (w : world) (o : op) : res (world * list obs) :=
       el1 <- swap_symbols junk0 el relsec a b ;; Ok (mkWorld el1, [])
   | OpRelNum relsec =>
       s <- need_sec el relsec ;; Ok (w, [ObN T_RELNUM [relsec; rel_entries_num s]])
+  | OpRelNew k sec => _ <- need_sec el sec ;; Ok (set_acc w el k (ARel sec), [])
+  | OpRelAddK k rela offset symbol type addend =>
+      match find_acc (w_accs w) k with
+      | Some (ARel relsec) => el1 <- rel_add_entry_sym junk0 el relsec rela offset symbol type addend ;; Ok (mkWorld el1, [])
+      | _ => Fault NullDeref
+      end
+  | OpRelGetK k idx =>
+      match find_acc (w_accs w) k with
+      | Some (ARel relsec) =>
+          '(el1, r) <- rel_get_entry junk0 el relsec idx ;;
+          Ok (mkWorld el1,
+              [match r with
+               | Some v => ObN T_REL [relsec; idx; 1; rv_offset v; rv_symbol v; rv_type v; rv_addend v]
+               | None => ObN T_REL [relsec; idx; 0]
+               end])
+      | _ => Fault NullDeref
+      end
+  | OpRelSetK k idx offset symbol type addend =>
+      match find_acc (w_accs w) k with
+      | Some (ARel relsec) =>
+          '(el1, r) <- rel_set_entry junk0 el relsec idx offset symbol type addend ;;
+          Ok (mkWorld el1, [ObN T_RELSET [b2n r]])
+      | _ => Fault NullDeref
+      end
+  | OpRelSwapK k a b =>
+      match find_acc (w_accs w) k with
+      | Some (ARel relsec) => el1 <- swap_symbols junk0 el relsec a b ;; Ok (mkWorld el1, [])
+      | _ => Fault NullDeref
+      end
+  | OpRelNumK k =>
+      match find_acc (w_accs w) k with
+      | Some (ARel relsec) => s <- need_sec el relsec ;; Ok (w, [ObN T_RELNUM [relsec; rel_entries_num s]])
+      | _ => Fault NullDeref
+      end
   (* ---- dynamic ---- *)
   | OpDynNew k sec =>
       _ <- need_sec el sec ;; Ok (set_acc w el k (ADyn (mkDynAcc sec 0)), [])
